@@ -48,7 +48,7 @@ VERDICTS = {'VALIDATION_ERROR': 'VdValidation', 'PASS': 'VdPass', 'FAIL': 'VdFai
 LOGIC_CONST = {
     'line-matcher': 'constant true', 'file-matcher': 'constant true', 'files-matcher': 'constant true',
     'text-matcher': 'constant true', 'integer-matcher': 'constant true', 'text-transformer': 'identity',
-    'program': '$ true', 'files-condition': '{ }', 'files-source': '{ }', 'text-source': '"abc"',
+    'program': '% true', 'files-condition': '{ }', 'files-source': '{ }', 'text-source': '"abc"',
 }
 # templates with holes: {L:<type id>} = a plain symbol name where a value of that type is expected,
 # {D} = @[NAME]@ where any string/list/path is accepted
@@ -65,7 +65,7 @@ LOGIC_TEMPLATES = {
     'text-transformer': ['{L:text-transformer}', '{L:text-transformer} | {L:text-transformer}', 'filter {L:line-matcher}',
                          'replace {D} {D}'],
     'text-source': ['{S}', '"a{D}"'],
-    'program': ['@ {L:program}', '$ true {D}', '@ {L:program} {D}'],
+    'program': ['@ {L:program}', "$ true '{D}'", '@ {L:program} {D}'],
 }
 # use (non-def) instructions per required logic type: (phases where available, template)
 LOGIC_USES = {
